@@ -35,7 +35,11 @@ def run_one(name, meta, tests=False, tier="quick"):
             outs.append(c.stdout)
             if c.returncode == 1 and "VIOLATION property=%s" % prop in c.stdout and meta["expect"] in c.stdout:
                 caught = True
-        status = "caught" if caught else "MISSED"
+            # a control registered as "undecided": the variant is wrong, but what the rules see of it is only new code they cannot
+            # judge -- the honest outcome is exit 2 naming the site, and no VIOLATION line
+            if meta.get("undecided") and c.returncode == 2 and "VIOLATION" not in c.stdout and meta["expect"] in c.stdout:
+                caught = True
+        status = ("caught" if not meta.get("undecided") else "caught (undecided, as registered)") if caught else "MISSED"
         if tests and res.get("tests_exit") != 0 and not meta.get("tests_fail_expected"):
             status += " (tests FAIL on variant)"
         return name, status, "\n".join(outs)[-1500:] if not caught else "", res
